@@ -255,51 +255,65 @@ theorem getHookOld_self_first (cfg : Config) (g : String) (grp : Group) (rest : 
     rw [getHookOld_eq, hh, hg]
     simp only [hm, expandNamesOld, ih]
 
-theorem expandNamesOld_of_new {rec : String → Except Err (List Hook)} {recOld : String → Expand}
-    (hrec : ∀ n r, rec n = .ok r → recOld n = .ok r) :
-    ∀ ns r, expandNames rec ns = .ok r → expandNamesOld recOld ns = .ok r := by
+theorem expandNamesOld_of_new {rec : Nat → String → Except Err (List Hook × Nat)}
+    {recOld : String → Expand} (hrec : ∀ b n hs b', rec b n = .ok (hs, b') → recOld n = .ok hs) :
+    ∀ ns acc b r b', groupLoop rec ns acc b = .ok (r, b') →
+      ∃ r', r = acc ++ r' ∧ expandNamesOld recOld ns = .ok r' := by
   intro ns
   induction ns with
-  | nil => intro r h; simp only [expandNames, Except.ok.injEq] at h; subst h; rfl
+  | nil =>
+    intro acc b r b' h
+    simp only [groupLoop, Except.ok.injEq, Prod.mk.injEq] at h
+    exact ⟨[], by simp [h.1], rfl⟩
   | cons n ns ih =>
-    intro r h
-    simp only [expandNames] at h
-    cases hn : rec n with
+    intro acc b r b' h
+    simp only [groupLoop] at h
+    cases hn : rec b n with
     | error e => simp [hn] at h
-    | ok hs =>
+    | ok res =>
+      obtain ⟨hs, b₁⟩ := res
       simp only [hn] at h
-      cases hr : expandNames rec ns with
-      | error e => simp [hr] at h
-      | ok rest =>
-        simp only [hr, Except.ok.injEq] at h
-        subst h
-        simp only [expandNamesOld, hrec n hs hn, ih rest hr]
+      obtain ⟨r', hr, hold⟩ := ih _ _ _ _ h
+      exact ⟨hs ++ r', by simp [hr], by simp only [expandNamesOld, hrec b n hs b₁ hn, hold]⟩
 
-/-- Whatever the repaired expansion accepts, the old one accepted with the same result, given as
-many stack frames as the repaired code has fuel. -/
+/-- Whatever the current expansion accepts, the old one accepted with the same result, given as
+many stack frames as the current model has fuel. -/
 theorem getHookOld_of_expandHook (cfg : Config) :
-    ∀ fuel parents n r, expandHook cfg fuel parents n = .ok r → getHookOld cfg fuel n = .ok r := by
+    ∀ fuel parents budget n r b', expandHook cfg fuel parents budget n = .ok (r, b') →
+      getHookOld cfg fuel n = .ok r := by
   intro fuel
   induction fuel with
   | zero =>
-    intro parents n r h
+    intro parents budget n r b' h
     rw [expandHook_eq] at h
     rw [getHookOld_eq]
+    cases budget with
+    | zero => simp at h
+    | succ budget =>
     cases hh : findHook cfg n with
-    | some hk => simpa [hh] using h
+    | some hk =>
+      simp only [hh, Except.ok.injEq, Prod.mk.injEq] at h
+      simp [h.1]
     | none =>
       simp only [hh] at h
       cases hg : findGroup cfg n with
       | none => simp [hg] at h
       | some g =>
         simp only [hg] at h
-        by_cases hm : n ∈ parents <;> simp [hm] at h
+        by_cases hm : n ∈ parents
+        · simp [hm] at h
+        · by_cases hd : parents.length ≥ maxHookGroupDepth <;> simp [hm, hd] at h
   | succ fuel ih =>
-    intro parents n r h
+    intro parents budget n r b' h
     rw [expandHook_eq] at h
     rw [getHookOld_eq]
+    cases budget with
+    | zero => simp at h
+    | succ budget =>
     cases hh : findHook cfg n with
-    | some hk => simpa [hh] using h
+    | some hk =>
+      simp only [hh, Except.ok.injEq, Prod.mk.injEq] at h
+      simp [h.1]
     | none =>
       simp only [hh] at h
       cases hg : findGroup cfg n with
@@ -309,7 +323,12 @@ theorem getHookOld_of_expandHook (cfg : Config) :
         by_cases hm : n ∈ parents
         · simp [hm] at h
         · simp only [hm, if_false] at h
-          exact expandNamesOld_of_new (fun m r' => ih (parents ++ [n]) m r') g.hooks r h
+          by_cases hd : parents.length ≥ maxHookGroupDepth
+          · simp [hd] at h
+          · simp only [hd, if_false] at h
+            obtain ⟨r', hr, hold⟩ := expandNamesOld_of_new
+              (fun b m hs b₁ => ih (parents ++ [n]) b m hs b₁) g.hooks [] budget r b' h
+            simpa [hr] using hold
 
 theorem expandNamesOld_denotes {cfg : Config} {rec : String → Expand}
     (hrec : ∀ n r, rec n = .ok r → ExpandsList cfg [n] r) :
@@ -393,19 +412,20 @@ theorem includeLoopWith_current (rec : Path → List Path → Except Err (Config
     | ok r => simp only [mergeCfgWith_current, ih]
 
 theorem readCnfWith_current {π : Type} (files : Files π) (resolve : Path → π → List Path) :
-    ∀ fuel path loaded,
-      readCnfWith mergedOptions files resolve fuel path loaded = readCnf files resolve fuel path loaded := by
+    ∀ fuel depth path loaded,
+      readCnfWith mergedOptions files resolve fuel depth path loaded =
+        readCnf files resolve fuel depth path loaded := by
   intro fuel
   induction fuel with
   | zero =>
-    intro path loaded
+    intro depth path loaded
     simp only [readCnfWith, readCnf]
     cases lookupFile files path <;> rfl
   | succ n ih =>
-    intro path loaded
+    intro depth path loaded
     simp only [readCnfWith, readCnf]
-    have : readCnfWith mergedOptions files resolve n = readCnf files resolve n := by
-      funext p l; exact ih p l
+    have : readCnfWith mergedOptions files resolve n (depth + 1) = readCnf files resolve n (depth + 1) := by
+      funext p l; exact ih (depth + 1) p l
     rw [this]
     cases lookupFile files path with
     | none => rfl
